@@ -27,6 +27,10 @@ CLAIMS = {
   "text": "Every generated package is read end to end by readers that share nothing with the writers' call sites (own ar, rpm lead/header, cpio-newc, mtree readers; stdlib tar/gzip; xz, zstd): member order, debian-binary content, compression name vs stream, 8-byte signature alignment, cpio entries = header file list minus ghosts and sorted, apk segments 512-aligned with cut control/signature segments and a complete data tar whose concatenation reads as one tar with .PKGINFO first, ipk nesting, archlinux .MTREE listing .PKGINFO first and .INSTALL iff scripts. The extracted checker check_names decides uniqueness, relativity, './' prefix, '..' freedom, directory slashes and parents-before-children of every tar's names. Theorem C04_tar_names_wellformed_partial (closed): for every plan the payload model's names satisfy all of those clauses except parents-before-children (not yet a theorem).",
   "note": "PARTIAL at the theorem level: parents-before-children and the container layouts (ar, apk cut/full segments, rpm alignment) are decided by the decoders and the checker on generated packages, not proved; compressed streams are judged by independent decompressors. Trusted: Coq kernel, extraction, OCaml driver, Go harness and decoders.",
  },
+ "C02": {
+  "text": "The control metadata each packager renders is modelled as Gallina functions from the document's values (WithDefaults' semver split, per-packager defaults, architecture translation, deb/ipk control templates with join / nonEmpty / multiline incl. bufio.Scanner's 64 KiB limit, apk and archlinux .PKGINFO, rpm tags with rpmpack's relation parser, addIfMissing and self-provide) and compared on every run BYTE FOR BYTE with the control / .PKGINFO member of packages built through the real pipeline (rpm: tag by tag). The extracted checker check_C02 judges the independently parsed fields (name, composed version, documented architecture translation or override, maintainer/vendor/homepage/license/section/priority, synopsis, recovered description lines, every relation list complete and in order under its own tag, extras iff configured, no duplicate keys). Theorems (closed): Debian unfolding inverts the multiline printer for all descriptions without a '.' line (C02_description_recovered; refuted otherwise), overrides verbatim; instance obligations re-proved on every run over the regenerated tables: every documented GOARCH x format row equals the code's translation, all five formats documented, translation idempotent.",
+  "note": "Known findings C02-K1 (archlinux pkgver drops the prerelease), K2 ('.' line), K3 (64 KiB line). Trusted: Coq kernel, extraction, OCaml driver, Go harness/decoders, translators/arch.go (go/ast + markdown rows). text/template, rpmpack's header encoding and chglog are modelled by their output. ASCII white space only.",
+ },
 }
 TECH = "Rocq proof over hand-written Gallina model + extraction-based correspondence check against the Go implementation"
 props = [json.loads(l) for l in open(V + "/properties.jsonl")]
